@@ -294,6 +294,9 @@ def replay_native(spec_fn, params, model, qname, qkind, profile):
             return "reproduced", "native goal(s) false: %s" % ", ".join(bad)
         return "not_reproduced", "goal %s not evaluated natively; all native goals true" % qname
     except Exception as e:
+        # a spec that reads the Ok payload after the goal "the call succeeds" has already come out false natively
+        if io.assumed_ok and io.goals.get(qname) is False:
+            return "reproduced", "goal false natively (spec stopped afterwards: %s)" % e
         return "error", "%s" % e
 
 
